@@ -2,7 +2,7 @@
    Property theorems only; each is closed by [exact] of a lemma proved in proofs/. *)
 From SQ Require Import lib.Base gen.Gen_C06.
 From Coq Require String Ascii.
-From SQ Require model.HeaderProtection proofs.HeaderProtectionProofs model.Nonce proofs.NonceProofs model.RxPipeline proofs.RxPipelineProofs.
+From SQ Require model.HeaderProtection proofs.HeaderProtectionProofs model.Nonce proofs.NonceProofs model.RxPipeline proofs.RxPipelineProofs model.ResetMap.
 Import HeaderProtection.
 Local Open Scope N_scope.
 
@@ -219,6 +219,17 @@ Example C06_rxpipe_example :
             2; 0; 27; 1; 2; 0; 27; 1; 2; 0; 27; 1; 2; 0; 27; 1; 2; 1; 27; 1; 1; 1]%Z in
   RxPipeline.run c = [0; 10; 3; 1; 2; 3; 1; 1; 1; 1; 6; 5]%Z.
 Proof. vm_compute. reflexivity. Qed.
+
+(* resetmap (real PeerIdRegistry + ConnectionIdMapper through the hook): the general statement
+   "judge c (run c) = true" is NOT proved (time); one concrete history is checked here: a token announced by
+   NEW_CONNECTION_ID matches only after its id is taken into use, matches once, a token registered by
+   a second connection maps to that connection, and is forgotten when the connection is dropped *)
+Example C06_resetmap_judge_example_partial :
+  let d := fun t : Z => ([4; 21; 64; 1; 2; 3; 4]%Z ++ map Nz (ResetMap.tok_bytes (zN t))) in
+  let c := ([0; 1; 1000; 1; 0; 1; 77]%Z ++ d 77%Z ++ [2; 0]%Z ++ d 77%Z ++ d 77%Z ++ [0; 1; 1000]%Z ++ d 1000%Z
+            ++ [3; 1]%Z ++ d 1000%Z) in
+  ResetMap.run c = [0; 0; 1; 1; 0; 2; 0; 0]%Z /\ ResetMap.judge c (ResetMap.run c) = true.
+Proof. split; vm_compute; reflexivity. Qed.
 
 Print Assumptions C06_hp_constants.
 Print Assumptions C06_hp_roundtrip.
